@@ -624,6 +624,14 @@ impl ConnectionPool {
             }
         }
 
+        // Nobody can RESUME a pool that is no longer registered: let the sessions that wait on
+        // it go on, they will find out that their pool is gone.
+        for (identifier, old_pool) in get_all_pools() {
+            if !new_pools.contains_key(&identifier) {
+                old_pool.resume();
+            }
+        }
+
         POOLS.store(Arc::new(new_pools.clone()));
         Ok(())
     }
